@@ -1,5 +1,6 @@
 //! tyv: binds the engines of tyv-model to the typstyle-core of /repo's working tree.
 
+mod c02;
 mod c05;
 mod c17;
 mod cli;
@@ -135,7 +136,7 @@ fn full_levels(m: &Model, thorough: bool, forms1: &[&str], forms_k2: &[&str], fo
     let mut v = vec![
         lvl("ctx*/k<=1/dev<=1", sweep::skeletons(m, &all, &[0, 1], &[Size::Short, Size::Medium]), forms1, &[]),
         lvl("main/k2/dev0", sweep::skeletons(m, &MAIN_CTX, &[2], &[Size::Short]), &[], &[]),
-        lvl("hash,let,math/k2/dev1", sweep::skeletons(m, &["hash", "let", "math_i"], &[2], &[Size::Short]), &forms_k2[..forms_k2.len().min(if thorough { 99 } else { 7 })], &[]),
+        lvl("hash,let,math/k2/dev1", sweep::skeletons(m, &["hash", "let", "math_i"], &[2], &[Size::Short]), &forms_k2[..forms_k2.len().min(if thorough { 99 } else { 4 })], &[]),
     ];
     if thorough {
         v.push(lvl("ctx*/k<=1/dev2", sweep::skeletons(m, &all, &[1], &[Size::Short]), forms2, forms2));
@@ -204,9 +205,49 @@ fn plan_for(id: &str, thorough: bool) -> Option<Plan> {
             assumptions: vec![two_uses, wrapper, "typst_syntax 0.13.1 is the reference parser (same version as the subject's)".into()],
             model: m,
         },
+        "C02" => {
+            // the program sub-model: every context gets the prelude in front
+            let mut m = m;
+            for c in m.ctxs.iter_mut() {
+                c.segs.insert(0, model::Seg::Lit(c02::PRELUDE.to_string()));
+            }
+            let ws = ["none", "sp", "nl", "nl2", "bc", "lc"];
+            let all = all_ctx();
+            let mut levels = vec![
+                lvl("ctx*/k<=1/dev<=1", sweep::skeletons(&m, &all, &[0, 1], &[Size::Short]), &ws, &[]),
+                lvl("main/k2/dev0", sweep::skeletons(&m, &MAIN_CTX, &[2], &[Size::Short]), &[], &[]),
+            ];
+            if thorough {
+                levels.push(lvl("hash,let,math/k2/dev1", sweep::skeletons(&m, &["hash", "let", "math_i"], &[2], &[Size::Short]), &["nl", "bc", "none"], &[]));
+                levels.push(lvl("ctx*/k2/dev1", sweep::skeletons(&m, &all, &[2], &[Size::Short]), &ws, &[]));
+                levels.push(lvl("ctx*/k<=1/medium", sweep::skeletons(&m, &all, &[1], &[Size::Medium]), &ws, &[]));
+                levels.push(lvl("core/k3-leaf/dev0", sweep::skeletons_f(&m, &CORE_CTX, &[3], &[Size::Short], SpineFilter::LeafLast), &[], &[]));
+            }
+            Plan {
+                oracle: Box::new(c02::C02),
+                levels,
+                extra: vec![],
+                policy: std_policy(sparse),
+                assumptions: vec![
+                    wrapper,
+                    "self-contained programs under one prelude; no packages, no file access beyond the virtual module, embedded fonts only; pixel equality at 2 px/pt like the repository's own consistency harness".into(),
+                    "the prelude (two short lines: a wildcard import of the virtual module and a show rule) is part of the formatted text; no width can break it".into(),
+                ],
+                model: m,
+            }
+        }
         "C03" => Plan {
             oracle: Box::new(oracles::basic::C03),
-            levels: full_levels(&m, thorough, model::FORMS_ALL, model::FORMS_QUICK, &["nl", "nl2", "bc", "lc", "none"]),
+            // every configuration costs a second formatter pass, so the quick tier is smaller than C01's
+            levels: if thorough {
+                full_levels(&m, true, model::FORMS_ALL, model::FORMS_QUICK, &["nl", "nl2", "bc", "lc", "none"])
+            } else {
+                vec![
+                    lvl("ctx*/k<=1/dev<=1", sweep::skeletons(&m, &all_ctx(), &[0, 1], &[Size::Short]), model::FORMS_ALL, &[]),
+                    lvl("main/k2/dev0", sweep::skeletons(&m, &MAIN_CTX, &[2], &[Size::Short]), &[], &[]),
+                    lvl("hash,let/k2/dev1", sweep::skeletons(&m, &["hash", "let"], &[2], &[Size::Short]), &["nl", "bc"], &[]),
+                ]
+            },
             extra: vec![],
             policy: std_policy(sparse),
             assumptions: vec![two_uses, wrapper],
@@ -226,9 +267,10 @@ fn plan_for(id: &str, thorough: bool) -> Option<Plan> {
                 let all = all_ctx();
                 let mut v = vec![
                     lvl("ctx*/k<=1/1 comment", sweep::skeletons(&m, &all, &[0, 1], &[Size::Short, Size::Medium]), model::FORMS_COMMENT, &[]),
-                    lvl("main/k2/1 comment", sweep::skeletons(&m, &MAIN_CTX, &[2], &[Size::Short]), &["bc", "lc", "nl_lc", "bc_ml", "bc_sp"], &[]),
+                    lvl("hash,let,math/k2/1 comment", sweep::skeletons(&m, &["hash", "let", "math_i"], &[2], &[Size::Short]), &["bc", "lc"], &[]),
                 ];
                 if thorough {
+                    v.push(lvl("main/k2/1 comment", sweep::skeletons(&m, &MAIN_CTX, &[2], &[Size::Short]), &["bc", "lc", "nl_lc", "bc_ml", "bc_sp"], &[]));
                     v.push(lvl("ctx*/k<=1/2 comments", sweep::skeletons(&m, &all, &[1], &[Size::Short]), model::FORMS_COMMENT, &["bc", "lc", "nl_lc", "bc_sp"]));
                     v.push(lvl("ctx*/k2/1 comment", sweep::skeletons(&m, &all, &[2], &[Size::Short]), model::FORMS_COMMENT, &[]));
                     v.push(lvl("core/k3-leaf/1 comment", sweep::skeletons_f(&m, &CORE_CTX, &[3], &[Size::Short], SpineFilter::LeafLast), &["bc", "lc"], &[]));
@@ -257,7 +299,7 @@ fn plan_for(id: &str, thorough: bool) -> Option<Plan> {
             oracle: Box::new(oracles::ws::C08),
             levels: {
                 let mk = ["doc", "item", "content_ml", "heading", "strong", "mixed"];
-                let mut v = vec![lvl("markup ctx/k<=2/dev<=1", sweep::skeletons(&m, &mk, &[1, 2], &[Size::Short]), model::FORMS_QUICK, &[])];
+                let mut v = vec![lvl("markup ctx/k<=2/dev<=1", sweep::skeletons(&m, &mk, &[1, 2], &[Size::Short]), &model::FORMS_QUICK[..if thorough { 12 } else { 7 }], &[])];
                 if thorough {
                     v.push(lvl("markup ctx/k<=2/all forms", sweep::skeletons(&m, &mk, &[1, 2], &[Size::Short, Size::Medium]), model::FORMS_ALL, &[]));
                     v.push(lvl("markup ctx/k3/dev0", sweep::skeletons(&m, &["doc", "content_ml", "item"], &[3], &[Size::Short]), &[], &[]));
@@ -273,7 +315,7 @@ fn plan_for(id: &str, thorough: bool) -> Option<Plan> {
             oracle: Box::new(oracles::ws::C09),
             levels: {
                 let mk = ["math_i", "math_b", "math_hash", "let", "arg", "doc"];
-                let mut v = vec![lvl("math ctx/k<=2/dev<=1", sweep::skeletons(&m, &mk, &[1, 2], &[Size::Short]), model::FORMS_QUICK, &[])];
+                let mut v = vec![lvl("math ctx/k<=2/dev<=1", sweep::skeletons(&m, &mk, &[1, 2], &[Size::Short]), &model::FORMS_QUICK[..if thorough { 12 } else { 7 }], &[])];
                 if thorough {
                     v.push(lvl("math ctx/k<=2/all forms", sweep::skeletons(&m, &mk, &[1, 2], &[Size::Short, Size::Medium]), model::FORMS_ALL, &[]));
                     v.push(lvl("math ctx/k3/dev0", sweep::skeletons(&m, &["math_i", "math_b"], &[3], &[Size::Short]), &[], &[]));
@@ -319,9 +361,11 @@ fn plan_for(id: &str, thorough: bool) -> Option<Plan> {
                 let all = all_ctx();
                 let mut v = vec![
                     lvl("ctx*/k<=1/linefeed dev<=1", sweep::skeletons(&m, &all, &[0, 1], &[Size::Short]), &lf, &[]),
-                    lvl("main/k2/linefeed dev<=1", sweep::skeletons(&m, &MAIN_CTX, &[2], &[Size::Short]), &["nl", "lc", "bc_ml"], &[]),
+                    lvl("main/k2/dev0", sweep::skeletons(&m, &MAIN_CTX, &[2], &[Size::Short]), &[], &[]),
+                    lvl("hash,let/k2/nl", sweep::skeletons(&m, &["hash", "let"], &[2], &[Size::Short]), &["nl"], &[]),
                 ];
                 if thorough {
+                    v.push(lvl("main/k2/linefeed dev<=1", sweep::skeletons(&m, &MAIN_CTX, &[2], &[Size::Short]), &["nl", "lc", "bc_ml"], &[]));
                     v.push(lvl("ctx*/k2/linefeed dev<=1", sweep::skeletons(&m, &all, &[2], &[Size::Short]), &lf, &[]));
                     v.push(lvl("core/k3/dev0", sweep::skeletons(&m, &CORE_CTX, &[3], &[Size::Short]), &[], &[]));
                     v.push(lvl("core/k3-leaf/nl", sweep::skeletons_f(&m, &CORE_CTX, &[3], &[Size::Short], SpineFilter::LeafLast), &["nl"], &[]));
@@ -330,7 +374,7 @@ fn plan_for(id: &str, thorough: bool) -> Option<Plan> {
             },
             extra: vec![],
             policy: CfgPolicy {
-                widths: Widths::HugeThenAll { cap: 200 },
+                widths: Widths::HugeThenAll { cap: if thorough { 200 } else { 90 } },
                 tabs_full: vec![1, 2, 3, 4, 5, 6, 7, 8],
                 tabs_sparse: vec![3, 5, 7],
                 reorder: vec![false],
@@ -441,6 +485,11 @@ fn run_check(id: &str, tier: Option<&str>, mode: Mode) -> i32 {
     if mode == Mode::Triage {
         report::triage(&res.failures);
     }
+    let mut res = res;
+    if id == "C02" {
+        res.coverage.extra.insert("compiles".into(), serde_json::json!(c02::COMPILES.load(std::sync::atomic::Ordering::Relaxed)));
+        res.coverage.extra.insert("inputs_that_compile".into(), serde_json::json!(c02::COMPILED_OK.load(std::sync::atomic::Ordering::Relaxed)));
+    }
     let out = Outcome {
         property: id.to_string(),
         tier,
@@ -469,6 +518,14 @@ fn example_fails(subject: &dyn Subject, oracle: &dyn Oracle, policy: &CfgPolicy,
     v.fails.iter().any(|(f, _)| want.is_none_or(|w| w == f.clause))
 }
 
+fn run_named(id: &str) -> i32 {
+    match id {
+        "C16" => cli::run_c16("quick", 0),
+        "C18" => c18::run("quick", 0),
+        _ => 2,
+    }
+}
+
 fn replay(path: &str) -> i32 {
     let Ok(s) = std::fs::read_to_string(path) else {
         eprintln!("MACHINERY: cannot read {path}");
@@ -483,8 +540,19 @@ fn replay(path: &str) -> i32 {
     };
     let property = v["property"].as_str().unwrap_or("");
     let input = v["input"].as_str().unwrap_or("");
+    match property {
+        "C05" => return c05::replay(&v, path),
+        "C14" | "C15" => return cli::replay(&v, path),
+        "C17" => return c17::replay(&v, path),
+        "C16" | "C18" => {
+            println!("replay {property}: {}", v["detail"].as_str().unwrap_or(""));
+            println!("this engine replays by re-running the (fast, deterministic) quick check: ./check {property} quick");
+            return run_named(property);
+        }
+        _ => {}
+    }
     let Some(plan) = plan_for(property, false) else {
-        eprintln!("MACHINERY: replay of {property} is handled by its own engine");
+        eprintln!("MACHINERY: no replay for {property}");
         return 2;
     };
     let subject = Real;
